@@ -875,6 +875,41 @@ def _fold_temp_loops(fn):
                 h.body = fold(h.body)
             nxt = body[i + 1] if i + 1 < len(body) else None
             tgt = s.targets[0] if isinstance(s, ast.Assign) and len(s.targets) == 1 else None
+            # `v = 0` + `for t in it: v += E`  ->  `v = sum(E for t in it)`;  `v = False` + `for t in it: if c: v = True [; break]`
+            # ->  `v = any(c for t in it)`  (and the dual with True / False / all)
+            if isinstance(tgt, ast.Name) and isinstance(s, ast.Assign) and isinstance(s.value, ast.Constant) and isinstance(nxt, ast.For) \
+                    and not nxt.orelse and len(nxt.body) == 1 and isinstance(nxt.target, (ast.Name, ast.Tuple)):
+                v = tgt.id
+                b0 = nxt.body[0]
+                new_val = None
+                if s.value.value == 0 and type(s.value.value) is int and isinstance(b0, ast.AugAssign) and isinstance(b0.op, ast.Add) \
+                        and isinstance(b0.target, ast.Name) and b0.target.id == v and not uses(v, b0.value) and not uses(v, nxt.iter):
+                    gen = ast.GeneratorExp(elt=b0.value, generators=[ast.comprehension(target=nxt.target, iter=nxt.iter, ifs=[], is_async=0)])
+                    new_val = ast.Call(func=ast.Name(id='sum', ctx=ast.Load()), args=[gen], keywords=[])
+                elif isinstance(s.value.value, bool) and isinstance(b0, ast.If) and not b0.orelse and 1 <= len(b0.body) <= 2 \
+                        and isinstance(b0.body[0], ast.Assign) and len(b0.body[0].targets) == 1 and isinstance(b0.body[0].targets[0], ast.Name) \
+                        and b0.body[0].targets[0].id == v and isinstance(b0.body[0].value, ast.Constant) and b0.body[0].value.value is (not s.value.value) \
+                        and (len(b0.body) == 1 or isinstance(b0.body[1], ast.Break)) and not uses(v, b0.test) and not uses(v, nxt.iter):
+                    gen = ast.GeneratorExp(elt=b0.test, generators=[ast.comprehension(target=nxt.target, iter=nxt.iter, ifs=[], is_async=0)])
+                    call = ast.Call(func=ast.Name(id='any', ctx=ast.Load()), args=[gen], keywords=[])
+                    new_val = call if s.value.value is False else ast.UnaryOp(op=ast.Not(), operand=call)
+                elif isinstance(s.value.value, bool) and isinstance(b0, ast.Assign) and len(b0.targets) == 1 and isinstance(b0.targets[0], ast.Name) \
+                        and b0.targets[0].id == v and isinstance(b0.value, ast.IfExp) and isinstance(b0.value.body, ast.Constant) \
+                        and b0.value.body.value is (not s.value.value) and isinstance(b0.value.orelse, ast.Name) and b0.value.orelse.id == v \
+                        and not uses(v, b0.value.test) and not uses(v, nxt.iter):
+                    # the same flag loop after `if c: v = K` was written as `v = K if c else v`
+                    gen = ast.GeneratorExp(elt=b0.value.test, generators=[ast.comprehension(target=nxt.target, iter=nxt.iter, ifs=[], is_async=0)])
+                    call = ast.Call(func=ast.Name(id='any', ctx=ast.Load()), args=[gen], keywords=[])
+                    new_val = call if s.value.value is False else ast.UnaryOp(op=ast.Not(), operand=call)
+                if new_val is not None:
+                    loop_vars = {x.id for x in ast.walk(nxt.target) if isinstance(x, ast.Name)}
+                    if all(uses(t_, fn) == uses(t_, nxt) for t_ in loop_vars):
+                        new = ast.Assign(targets=s.targets, value=new_val)
+                        ast.copy_location(new, nxt)
+                        ast.fix_missing_locations(new)
+                        out.append(new)
+                        i += 2
+                        continue
             is_list = isinstance(s, ast.Assign) and isinstance(s.value, ast.List) and not s.value.elts
             is_set = isinstance(s, ast.Assign) and isinstance(s.value, ast.Call) and isinstance(s.value.func, ast.Name) and s.value.func.id == 'set' \
                 and not s.value.args and not s.value.keywords
